@@ -57,7 +57,7 @@ def run(tier, replay=None):
                       json.dumps({k: m.get(k) for k in ("what", "text", "off", "expected", "got", "reported")})[:400],
                       {"kind": "s2i", "cmd": ["c04-replay"], "behaviour": m.get("abstract"), "detail": {k: m[k] for k in m if k != "abstract"}})
     # ---- I->S
-    worlds, keys, looks = (8, 150, 150) if tier == "quick" else (120, 1500, 400)
+    worlds, keys, looks = (8, 150, 150) if tier == "quick" else (30, 500, 300)
     tp = os.path.join(C.WORK, "traces", f"c04_{tier}.ndjson")
     p = C.run_vh(["c04-record", tp, "--seed", C.seed(), "--worlds", worlds, "--keys", keys, "--lookups", looks])
     info = json.loads(p.stdout.strip().splitlines()[-1])
